@@ -145,6 +145,44 @@ def r11_2(ctx: Ctx):
         ctx.check(not early, rid, drv.short, drv.loc(lp), 'no trip is skipped (no break/return in the loop)',
                   'the iteration loop can end early (break/return): fewer than `number` iterations are performed',
                   key=f'{rid}::{drv.short}::early-exit')
+    # nothing outside the loop touches the search state: work done once per *call* makes the result depend on
+    # how the iterations are batched
+    from .c13 import solver_state
+    state = solver_state(ctx)
+    lst = roles.listener_methods()
+    outside = [st for st in drv.node.body if st not in loops and
+               not (isinstance(st, ast.For) and _loop_over_listeners(ctx, drv, st))]
+    n_out = 0
+    for st in outside:
+        for n in ast.walk(st):
+            if isinstance(n, ast.Call):
+                for c in ctx.pta.internal_callees(drv, n):
+                    if roles.fq(c) in lst:
+                        continue
+                    n_out += 1
+                    r_ = ctx.pta.reachable([c], stop=lambda q: q in lst)
+                    hits = []
+                    for m in E.mutations_in(ctx, r_):
+                        if m.init_self:
+                            continue
+                        if any(o in state for o in m.bases):
+                            hits.append(m)
+                    ctx.check(not hits, rid, drv.short, drv.loc(n),
+                              f'{c.short}() called once per call does not change the search state',
+                              f'{c.short}() is called once per DoGlobalIteration call (outside the iteration loop) '
+                              f'and changes the search state ({hits[0].text()[:60] if hits else ""} in '
+                              f'{hits[0].func.short if hits else ""}): k iterations in one call differ from k '
+                              f'calls of one iteration', key=f'{rid}::{drv.short}::per-call::{c.short}')
+            if isinstance(n, (ast.Assign, ast.AugAssign)):
+                tg = n.targets if isinstance(n, ast.Assign) else [n.target]
+                for t in tg:
+                    if isinstance(t, (ast.Attribute, ast.Subscript)):
+                        root = t
+                        while isinstance(root, (ast.Attribute, ast.Subscript)):
+                            root = root.value
+                        if isinstance(root, ast.Name) and root.id == drv.param_names[0]:
+                            ctx.fail(rid, drv.short, drv.loc(n), f'{ast.unparse(n)[:60]} is executed once per call, '
+                                                                 f'outside the iteration loop', key=ctx.key_for(rid, drv, n))
     reach = roles.reach(drv)
     ctx.check(roles.fq(sr) not in reach, rid, drv.short, drv.loc(), 'DoGlobalIteration never consults the stop routine',
               'DoGlobalIteration consults the stop criterion: iterations requested explicitly are not all performed',
@@ -336,6 +374,34 @@ def _is_listener_loop(ctx, drv, ev) -> bool:
     return _loop_over_listeners(ctx, drv, ev.node)
 
 
+def r11_5_counters(ctx: Ctx):
+    """The counters read by the stop routine never decrease: every writer increments (or sets the first value)."""
+    rid = 'R11.5'
+    roles = C.roles_of(ctx)
+    sol = ctx.ix.cls('Solution')
+    n = 0
+    for fld, owner in (('iterationsCount', roles.method_cls), ('numberOfGlobalTrials', sol)):
+        for m in roles.attr_writers(fld, owner):
+            n += 1
+            node = m.node
+            ok = False
+            if isinstance(node, ast.AugAssign) and isinstance(node.op, ast.Add) and isinstance(node.value, ast.Constant) \
+                    and isinstance(node.value.value, (int, float)) and node.value.value > 0:
+                ok = True
+            elif isinstance(node, (ast.Assign, ast.AnnAssign)) and isinstance(node.value, ast.Constant) and \
+                    m.func is roles.seeding and node.value.value == 1:
+                ok = True
+            elif isinstance(node, ast.Assign) and isinstance(node.value, ast.BinOp) and isinstance(node.value.op, ast.Add) \
+                    and any(isinstance(x, ast.Constant) and isinstance(x.value, (int, float)) and x.value > 0
+                            for x in (node.value.left, node.value.right)) \
+                    and any(isinstance(x, ast.Attribute) and x.attr == fld for x in (node.value.left, node.value.right)):
+                ok = True
+            ctx.check(ok, rid, m.func.short, m.loc(), f'{fld} only grows: {m.text()[:50]}',
+                      f'{fld} can decrease or be reset ({m.text()}): a finished solver could resume, and the trial '
+                      f'sequence would depend on when Solve is called', key=ctx.key_for(rid, m.func, m.node))
+    ctx.floor(rid, 'writers of the counters read by the stop routine', n, 3)
+
+
 def check(ctx: Ctx):
     for rid, fn in (('R11.1', r11_1), ('R11.2', r11_2), ('R11.3', r11_3), ('R11.4', r11_4)):
         if C.want(ctx, rid):
@@ -345,12 +411,11 @@ def check(ctx: Ctx):
                           'parameters never written (R12.3), pre-tested loop (R03.5): a finished solver stays '
                           'finished and a second Solve makes no trial - re-run here')
         from . import c03, c12
-        c03.r03_1(ctx)
-        c03.r03_3(ctx)
+        r11_5_counters(ctx)
         c03.r03_4(ctx)
         c03.r03_5(ctx)
         c03.r03_6(ctx)
-        c12.r12_3(ctx)
+        c12.r12_3_inputs_readonly(ctx)
     if C.want(ctx, 'R11.6'):
         ctx.rule('R11.6', 'notifications cannot feed back into the search (= R13.6), re-run here')
         from . import c13
